@@ -74,14 +74,13 @@ bool unitsAreEquivalent(const ModelPtr &model, const VariablePtr &v1, const Vari
  * @param multiplier Multiplier of the current unit in its parent.
  * @param uName String name of the current variable being investigated.
  * @param uExp Exponent of the current unit in its parent.
- * @param logMult Log multiplier.
  * @param direction Specify whether we want to increment (1) or decrement (-1).
  */
 void updateBaseUnitCount(const ModelPtr &model,
                          std::map<std::string, double> &unitMap,
                          double &multiplier,
                          const std::string &uName,
-                         double uExp, double logMult, int direction);
+                         double uExp, int direction);
 
 /**
  * @brief Validate the provided @p name is a valid CellML identifier.
@@ -2493,22 +2492,22 @@ bool unitsAreEquivalent(const ModelPtr &model,
     if (model->hasUnits(v1UnitsName)) {
         UnitsPtr u1 = Units::create();
         u1 = model->units(v1UnitsName);
-        updateBaseUnitCount(model, unitMap, multiplier, u1->name(), 1, 0, 1);
+        updateBaseUnitCount(model, unitMap, multiplier, u1->name(), 1, 1);
     } else if (unitMap.find(v1UnitsName) != unitMap.end()) {
         unitMap.at(v1UnitsName) += 1.0;
     } else if (isStandardUnitName(v1UnitsName)) {
-        updateBaseUnitCount(model, unitMap, multiplier, v1UnitsName, 1, 0, 1);
+        updateBaseUnitCount(model, unitMap, multiplier, v1UnitsName, 1, 1);
     }
 
     std::string v2UnitsName = v2->units()->name();
     if (model->hasUnits(v2UnitsName)) {
         UnitsPtr u2 = Units::create();
         u2 = model->units(v2UnitsName);
-        updateBaseUnitCount(model, unitMap, multiplier, u2->name(), 1, 0, -1);
+        updateBaseUnitCount(model, unitMap, multiplier, u2->name(), 1, -1);
     } else if (unitMap.find(v2UnitsName) != unitMap.end()) {
         unitMap.at(v2UnitsName) -= 1.0;
     } else if (isStandardUnitName(v2UnitsName)) {
-        updateBaseUnitCount(model, unitMap, multiplier, v2UnitsName, 1, 0, -1);
+        updateBaseUnitCount(model, unitMap, multiplier, v2UnitsName, 1, -1);
     }
 
     // Remove "dimensionless" from base unit testing.
@@ -2549,8 +2548,7 @@ void updateBaseUnitCount(const ModelPtr &model,
                          std::map<std::string, double> &unitMap,
                          double &multiplier,
                          const std::string &uName,
-                         double uExp, double logMult,
-                         int direction)
+                         double uExp, int direction)
 {
     if (model->hasUnits(uName)) {
         UnitsPtr u = model->units(uName);
@@ -2559,7 +2557,6 @@ void updateBaseUnitCount(const ModelPtr &model,
                 unitMap.emplace(uName, 0.0);
             }
             unitMap[uName] += direction * uExp;
-            multiplier += direction * logMult;
         } else {
             std::string ref;
             std::string pre;
@@ -2570,13 +2567,15 @@ void updateBaseUnitCount(const ModelPtr &model,
             for (size_t i = 0; i < u->unitCount(); ++i) {
                 u->unitAttributes(i, ref, pre, exp, expMult, id);
                 mult = std::log10(expMult);
+                // As in Units::scalingFactor(): the exponent applies to the referenced units only, not to the multiplier or prefix.
+                multiplier += direction * uExp * (mult + convertPrefixToInt(pre));
                 if (!isStandardUnitName(ref)) {
-                    updateBaseUnitCount(model, unitMap, multiplier, ref, exp * uExp, logMult + mult * uExp + convertPrefixToInt(pre) * uExp, direction);
+                    updateBaseUnitCount(model, unitMap, multiplier, ref, exp * uExp, direction);
                 } else {
                     for (const auto &iter : standardUnitsList.at(ref)) {
                         unitMap.at(iter.first) += direction * (iter.second * exp * uExp);
                     }
-                    multiplier += direction * (logMult + (standardMultiplierList.at(ref) + mult + convertPrefixToInt(pre)) * exp);
+                    multiplier += direction * uExp * exp * standardMultiplierList.at(ref);
                 }
             }
         }
@@ -2584,7 +2583,7 @@ void updateBaseUnitCount(const ModelPtr &model,
         for (const auto &iter : standardUnitsList.at(uName)) {
             unitMap.at(iter.first) += direction * (iter.second * uExp);
         }
-        multiplier += direction * (logMult + standardMultiplierList.at(uName));
+        multiplier += direction * uExp * standardMultiplierList.at(uName);
     }
 }
 
